@@ -118,7 +118,7 @@ REGISTRY = {
         "trusted_base": COMMON_TRUST, "assumptions": [EXTERNAL, "gzip decompression and FASTA line joining (needletail) are exercised through the CLI only"],
     },
     "C04": {
-        "level": "proof", "modules": ["SkaModel.Props.C04", "SkaModel.Props.C04Writer"], "gen": ["C04"],
+        "level": "proof", "modules": ["SkaModel.Props.C04", "SkaModel.Props.C04Writer", "SkaModel.Props.C04Map", "SkaModel.Props.C04Final"], "gen": ["C04"],
         "rule": "references of 1-5 contigs (lengths 1, h, k-1, k, k+1, .., N runs, planted repeats on both strands, lower/mixed case) x samples derived by SNPs, indels, block deletions of every length 0..2k+2, rearranged/reverse-complemented/missing contigs, or tables with ambiguity codes; all four mask combinations; plus AlnWriter driven call by call with every gap length; non-trivial = distinct case lines with at least one mapped k-mer",
         "trusted_base": COMMON_TRUST, "assumptions": [EXTERNAL],
     },
